@@ -152,9 +152,9 @@ func gen(t *rapid.T) Case {
 		c.DepartAfterPieces = rapid.IntRange(0, (np+1)/2).Draw(t, "depart_after_pieces")
 		c.DepartMaxMs = rapid.SampledFrom([]int{0, 5, 20, 50, 150}).Draw(t, "depart_max_ms")
 	}
-	c.AnnounceMs = rapid.SampledFrom([]int{20, 50, 100}).Draw(t, "announce_ms")
-	c.PreemptMs = rapid.SampledFrom([]int{30, 100}).Draw(t, "preempt_ms")
-	c.ConnTTIMs = rapid.SampledFrom([]int{250, 400}).Draw(t, "conn_tti_ms")
+	c.AnnounceMs = rapid.SampledFrom([]int{20, 50}).Draw(t, "announce_ms")
+	c.PreemptMs = rapid.SampledFrom([]int{30, 60}).Draw(t, "preempt_ms")
+	c.ConnTTIMs = rapid.SampledFrom([]int{150, 300}).Draw(t, "conn_tti_ms")
 	c.PieceTimeoutMs = rapid.SampledFrom([]int{150, 400, 1000}).Draw(t, "piece_timeout_ms")
 	c.Completeness = rapid.Bool().Draw(t, "completeness")
 	return c
